@@ -19,7 +19,7 @@ PROPERTY = 'C14'
 RULE = ('Hypothesis-generated typed constant expression trees (depth <= 5) over int / char / bool literals (boundary grid '
         'per word size, including values outside the signed word range), const variables, + - * / %, comparisons, equality, '
         'and/or/not, unary + -, is int / is byte / is bool; each used as writeln(E), as an if condition, as an array index, '
-        'as a dynamic array length and as a global initialiser; and (every fourth shard) array literals of 1-12 shallow constant expressions of one element type (bool / int / byte) bound to a mutable and a const array and passed as an argument, every element printed. Variants of one tree: all leaves constant, all leaves read '
+        'as a dynamic array length, as a global initialiser and (shifted into -1..5) as an index into a string literal, a const string and a const array of length 5; and (every fourth shard) array literals of 1-12 shallow constant expressions of one element type (bool / int / byte) bound to a mutable and a const array and passed as an argument, every element printed. Variants of one tree: all leaves constant, all leaves read '
         'from argv at run time, and drawn subsets of leaves de-constified (typing preserved by construction). Word sizes '
         '{2,3,4}. Oracle: every variant run on the VM must produce the events the reference interpreter computes with '
         'run-time semantics (so all variants agree with each other); the compiler may reject a variant only with a '
@@ -197,6 +197,17 @@ def build_variant(expr, mask, consts, ws):
         gdecls.append(Decl(ty, False, 'gval', copy.deepcopy(e)))
         gshown = Var('gval', t=ty)
         body.append(ExprStmt(Call('writeln', [Is(gshown, INT, t=INT) if ty == BYTE else gshown], t=EMPTY)))
+    if ty != BOOL:
+        # last (it may fault): the raw value, shifted into -1..5, indexes constant data of length 5 - a string literal, a
+        # const string, a const array: a folded lookup must behave like the run-time one, also just outside either end
+        seven, one = Lit('int', 7, None, t=INT), Lit('int', 1, None, t=INT)
+        mk = lambda: Bin('-', Paren(Bin('%', Paren(copy.deepcopy(e), t=ty), seven, t=INT), t=INT), one, t=INT)   # noqa
+        gdecls.append(Decl(STRING, True, 'cstr', Lit('string', b'vwxyz', None, t=STRING)))
+        cty = arr(INT, True)
+        gdecls.append(Decl(cty, True, 'ctab', ArrLit([Lit('int', 50 + k, None, t=INT) for k in range(5)], t=cty)))
+        body.append(ExprStmt(Call('write', [Is(Index(Lit('string', b'abcde', None, t=STRING), mk(), t=BYTE), INT, t=INT)], t=EMPTY)))
+        body.append(ExprStmt(Call('write', [Is(Index(Var('cstr', t=STRING), mk(), t=BYTE), INT, t=INT)], t=EMPTY)))
+        body.append(ExprStmt(Call('write', [Index(Var('ctab', t=cty), mk(), t=INT)], t=EMPTY)))
     prog = Program(gdecls, [Func(EMPTY, '@is_you', [Param(arr(INT, True), True, 'a')], Block(body))])
     return prog, [argv]
 
@@ -225,6 +236,10 @@ def check_tree(stats, expr, ws, masks, consts):
                     stats.cls('rejected_constant_div0')
                     continue
                 return ('reject_div0', 'ws=%d: rejected with %r although no constant sub-expression divides by a constant zero\n%s' % (ws, msg, src))
+            if ref.kind.startswith('fault:'):
+                # the property allows rejecting a constant sub-expression whose run-time evaluation would fault
+                stats.cls('rejected_where_run_time_faults')
+                continue
             return ('rejected', 'ws=%d: variant rejected: %s: %s\n%s' % (ws, type(e).__name__, msg, src))
         run = run_lines(lines, argv_strings(vals), budget=300_000)
         if run.outcome == svm.BUDGET:
